@@ -21,5 +21,11 @@ def jobs(tier):
                        extra=["ALLOC_FAIL"] + (["TL_SHAPE=1", "TL_NRECS=2"] if nm == "srcremove" else []))
         j.desc = "k-th allocation fails (k symbolic, 0 = none): " + j.desc
         J.append(j)
+    # a node with three records: the only shape in which the undo branch of a failed shrink can misplace an element
+    for nm, entry in (("remove", "harness_remove"), ("srcremove", "harness_src_remove")):
+        j = C02.op_job("allocfail_%s_v4_node3" % nm, entry, 0, 3, 4, 2400, prop="ASSERT_C18",
+                       extra=["ALLOC_FAIL", "TL_SHAPE=1", "TL_NRECS=3"],
+                       what="k-th allocation fails: %s on a single-node IPv4 trie with exactly 3 records (all values symbolic)" % entry)
+        J.append(j)
     J.append(C02.op_job("ledger_free_v4_d1", "harness_free", 1, 2, 4, 1500, prop="ASSERT_C09", harness="pfx_notify.c"))
     return J
